@@ -158,7 +158,7 @@ def run(ctx):
         raise tlc.MachineryError("AnglesExpr model violated %s" % r.violated)
     progs = programs(ctx, 4 if quick else 5)
     sim = programs(ctx, 7, simulate={"num": 400 if quick else 20000})
-    ctx.extra["programs"] = {"enumerated": len(progs), "simulated_len_le_7": len(sim)}
+    ctx.extra["programs_generated"] = {"enumerated": len(progs), "simulated_len_le_7": len(sim)}
     # group by shape: the same expression evaluated once per class assignment
     shapes = {}
     for p in progs + sim:
